@@ -4,6 +4,7 @@ C01 — property theorems (statements only; helper lemmas live in `Proofs/`).
 import Mahotas.Proofs.C01
 import Mahotas.Proofs.C01Scatter
 import Mahotas.Proofs.C01Star
+import Mahotas.Proofs.C01Fast
 namespace Mahotas.C01
 open Mahotas
 
@@ -224,6 +225,55 @@ theorem C01_dilate_regular_everywhere (dt : DT) (hdt : DTypeOK dt) (A : Img Int)
     obtain ⟨kh', hkh', hm', hh, hk'⟩ := star_exchange dt bshape sup hbox hstar hflat kh hkh hm _ hbt
     exact ⟨kh', hkh', hm', hh, by rw [hk']; exact hg⟩
 
+/-- **C01-T2 (2-D boolean fast path, erosion).** For every 2-D boolean image (any shape `Ny × Nx`),
+every 2-D structuring element given as an array of `By·Bx` entries (odd or even sized, empty, larger
+than the image, with or without its centre) and every pixel `(y, x)` of the image, the pointwise model
+of the erosion branch of `fast_binary_dilate_erode_2d` — centre handled separately (copy of the input or
+all-true), offset list with `dx` clamped to `±Nx`, AND of the reads clamped to the image — equals the lattice
+definition `erodeSpecAt` over the compressed support the generic kernel uses; hence (second part) it
+equals the model of the generic `erode` kernel: which code path serves the call does not change the
+answer. -/
+theorem C01_fast_erode_eq_spec (A : Img Int) (Ny Nx By Bx : Nat) (bc : Array Int) (y x : Int)
+    (hshape : A.shape = [Ny, Nx]) (hA : ∀ q, A.getD q 0 = 0 ∨ A.getD q 0 = 1)
+    (hbc : bc.size = By * Bx) (hp : inside A.shape [y, x] = true) :
+    fastErodeAt A [By, Bx] bc [y, x] = erodeSpecAt dtBool A (support [By, Bx] bc true) [y, x] ∧
+    ((∀ i, bc.getD i 0 = 0 ∨ bc.getD i 0 = 1) →
+      fastErodeAt A [By, Bx] bc [y, x] = erodeAt dtBool A (support [By, Bx] bc true) [y, x]) := by
+  obtain ⟨shape, data⟩ := A
+  simp only at hshape
+  subst hshape
+  obtain ⟨_, _, e, hy, hx⟩ := inside2 Ny Nx _ hp
+  simp only [List.cons.injEq, and_true] at e
+  obtain ⟨rfl, rfl⟩ := e
+  have h1 := fastErodeAt_eq_spec Ny Nx data By Bx bc y x hA hbc hy hx
+  refine ⟨h1, fun hbc01 => ?_⟩
+  rw [h1]
+  symm
+  apply C01_erode_bool_eq_spec _ _ _ ?_ hA ?_
+  · intro d hd
+    have : d = Ny ∨ d = Nx := by simpa using hd
+    rcases this with rfl | rfl <;> omega
+  · intro kh hkh
+    obtain ⟨i, _, hne, rfl⟩ := (mem_support2 By Bx bc kh).mp hkh
+    rcases hbc01 i with h | h
+    · exact absurd h hne
+    · exact h
+
+/-- **C01-T5 (2-D boolean fast path, dilation = generic kernel).** For every non-empty 2-D boolean
+image and every 2-D structuring element (odd or even sized, empty, larger than the image, regular or not)
+the model of the dilation branch of `fast_binary_dilate_erode_2d` (as repaired: scatter with clamp, the
+centre handled by the initial copy) produces the same array as the model of the generic `dilate` kernel
+with the compressed support — at every pixel, border included. Together with T3b/T4 the fast path
+therefore equals the lattice definition wherever the generic kernel does. -/
+theorem C01_fast_dilate_eq_generic (A : Img Int) (Ny Nx By Bx : Nat) (bc : Array Int)
+    (hshape : A.shape = [Ny, Nx]) (hNy : 0 < Ny) (hNx : 0 < Nx) (hdata : A.data.size = A.size)
+    (hA : ∀ q, A.getD q 0 = 0 ∨ A.getD q 0 = 1) (hbc : bc.size = By * Bx) :
+    fastDilate A [By, Bx] bc = dilateModel dtBool A (support [By, Bx] bc true) := by
+  obtain ⟨shape, data⟩ := A
+  simp only at hshape
+  subst hshape
+  exact fastDilate_eq Ny Nx data By Bx bc hNy hNx hdata hA hbc
+
 /-! non-vacuity: a 2×3 int8 image with negative values and a non-flat, even-sized element
     meets every hypothesis of `C01_erode_eq_spec`. -/
 example :
@@ -257,4 +307,29 @@ example :
     starShaped [1, 3] ((mem shift).map (·.1)) = false ∧
     (dilateModel (dtU 8) A shift).toList = [0, 6, 0] ∧
     (allPos A.shape).map (dilateSpecAt (dtU 8) A shift) = [6, 6, 0] := by
+  decide +kernel
+
+/-! non-vacuity of T2/T5: the 3×4 image and the asymmetric 3×3 element (centre absent) on which the pinned
+    fast path was wrong, and a 2×2 image under a 5×5 element whose offsets are clamped to `±Nx`:
+    the fast model equals the specification / the generic model; for the irregular element the scatter
+    result differs from the gather definition at a border pixel (index 7), where the statement is silent. -/
+example :
+    let A : Img Int := { shape := [3, 4], data := #[1,1,0,1, 1,1,1,1, 0,1,1,1] }
+    let D : Img Int := { shape := [3, 4], data := #[0,0,0,1, 0,0,0,0, 1,0,0,0] }
+    let bc : Array Int := #[1,0,1, 1,0,1, 0,0,1]
+    let sup := support [3, 3] bc true
+    (allPos A.shape).map (fastErodeAt A [3, 3] bc) = [1, 0, 1, 0, 1, 0, 1, 0, 0, 0, 1, 1] ∧
+    (allPos A.shape).map (erodeSpecAt dtBool A sup) = [1, 0, 1, 0, 1, 0, 1, 0, 0, 0, 1, 1] ∧
+    (fastDilate D [3, 3] bc).toList = [0, 0, 1, 1, 1, 1, 0, 1, 1, 1, 0, 0] ∧
+    (dilateModel dtBool D sup).toList = [0, 0, 1, 1, 1, 1, 0, 1, 1, 1, 0, 0] ∧
+    (allPos D.shape).map (dilateSpecAt dtBool D sup) = [0, 0, 1, 1, 1, 1, 0, 0, 1, 1, 0, 0] := by
+  decide +kernel
+
+example :
+    let A : Img Int := { shape := [2, 2], data := #[1, 0, 0, 0] }
+    let bc : Array Int := #[0,0,0,0,1, 0,0,0,0,0, 0,0,0,0,0, 0,0,0,0,0, 1,0,0,0,0]
+    fastPositions 2 [5, 5] bc true = [(-2, 2), (2, -2)] ∧
+    (allPos A.shape).map (fastErodeAt A [5, 5] bc) = [0, 0, 0, 0] ∧
+    (fastDilate A [5, 5] bc).toList = [0, 1, 1, 0] ∧
+    (dilateModel dtBool A (support [5, 5] bc true)).toList = [0, 1, 1, 0] := by
   decide +kernel
